@@ -13,3 +13,8 @@ BUILT['C07'] = {
     'level': 'Runtime monitoring: markers ($required, misplaced/misspelt/ill-typed directives) are injected into generated layer chains; the model says whether a marker ends up in an output document; the real evaluation must fail exactly then (with the required-field error for $required alone) and every successful output is scanned for $+lowercase strings. Holds for the executions produced only.',
     'note': 'Trusted: merge and $output models, marker catalogue (markers that can never be valid where injected). Cases where an upper layer edits a directive into a possibly valid one are skipped; hidden-only markers that still fail are counted, not judged.',
 }
+BUILT['C11'] = {
+    'technique': 'reference-model monitor for $output selection: small-scope sweep (all shapes/kinds/markings up to 4-5 containers) + random trees and streams (in-process worker)',
+    'level': 'Runtime monitoring: every tree shape with up to 4 (thorough 5) containers under every map/list and unmarked/true/false assignment, plus random larger trees and streams, is evaluated by the real library three times; the multiset of output documents must equal the model\'s selected subtrees with hidden parts cut and markers stripped; output order must be stable and follow document order. Exhaustive only for the swept sub-space.',
+    'note': 'Trusted: $output model (harness/bv/model.py). Not judged: marked map as a direct list entry (code reports extra keys), list with both marker entries, order within one document beyond stability.',
+}
